@@ -228,6 +228,39 @@ def run(ctx):
             res.corr_checked += 1
             if m != g:
                 res.corr_disagreements.append(("Feature.bin", ln, m, g))
+    # the stored bin (astuple) follows the *current* coordinates, also after they were changed ---------------------
+    for i in range(2000 if not ctx.thorough else 20000):
+        a = r.choice(inr); b = a + r.randrange(0, 300000)
+        a2 = r.choice(inr); b2 = a2 + r.choice([0, 1, 10, SIZES[0], r.randrange(0, 400000)])
+        f = Feature(seqid="c", start=a, end=b)
+        f.start, f.end = a2, b2
+        res.evaluations += 1
+        tb = f.astuple()[-1]
+        want = B.bins(a2, b2, one=True)
+        if tb != want:
+            res.oracle_failures.append(("the bin written for a feature whose coordinates were changed after construction "
+                                        "is not bins(start, end)", {"constructed": [a, b], "now": [a2, b2],
+                                                                    "astuple_bin": canon(tb), "bins": canon(want)}))
+    # features yielded by interfeatures carry the bin of their own coordinates ---------------------------------------
+    import gffutils
+    tiny = gffutils.create_db("chr1\t.\tgene\t1\t2\t.\t+\t.\tID=g\n", ":memory:", from_string=True)
+    for i in range(600 if not ctx.thorough else 6000):
+        k = r.randrange(4)
+        edge = r.randrange(1, min(M // SIZES[k], 50)) * SIZES[k]
+        e1 = edge + r.choice([-2, -1, 0, 1, 2])
+        s2 = e1 + r.choice([2, 3, 5000, SIZES[0], SIZES[0] + 1])
+        if r.random() < 0.5:
+            s2 = r.randrange(1, 40) * SIZES[k] + r.choice([-1, 0, 1, 2]) + edge
+            if s2 <= e1 + 1:
+                continue
+        f1 = Feature(seqid="chr1", featuretype="exon", start=max(1, e1 - 50), end=e1, strand="+", attributes={"ID": ["a"]})
+        f2 = Feature(seqid="chr1", featuretype="exon", start=s2, end=s2 + 50, strand="+", attributes={"ID": ["b"]})
+        for g in tiny.interfeatures([f1, f2]):
+            res.evaluations += 1
+            want = B.bins(g.start, g.end, one=True)
+            if g.bin != want:
+                res.oracle_failures.append(("an interfeature's bin is not bins(start, end)",
+                                            {"start": g.start, "end": g.end, "Feature.bin": canon(g.bin), "bins": canon(want)}))
     f = Feature(seqid="c", start=".", end=".")
     if f.bin is not None:
         res.oracle_failures.append(("Feature without coordinates has a bin", {"bin": canon(f.bin)}))
